@@ -615,6 +615,112 @@ def l_spectext( ctx ):
     return _l_spec( ctx, Result( 'L-SPECTEXT' ), True )
 
 
+@rule( 'L-SOCKADDR', props=( 'C01', 'C14' ), floor=8 )
+def l_sockaddr( ctx ):
+    """the fields of the struct sockaddr_in carried by the List Identity item and the Legacy 0x0001 reply ( sin_family, sin_port, sin_addr ) are in
+    NETWORK byte order, unlike everything else in CIP: every codec applied to one of them - a parser state with context='sin_*', a
+    <CLASS>.produce( ... sin_* ... ), a machine run over the produced sin_addr octets, a struct.pack / unpack of them - is a big-endian one"""
+    res = Result( 'L-SOCKADDR' )
+    g = grammar_of( ctx )
+    src = ctx.src( PARSER )
+    def order_of( cname ):
+        fmt = g.class_const( cname, 'struct_format' ) if cname in g.classes else None
+        return fmt[0] if isinstance( fmt, str ) and fmt and fmt[0] in '<>!=@' else ( '@' if isinstance( fmt, str ) else None )
+    def about_sockaddr( e ):
+        return any(( isinstance( x, ast.Name ) and x.id.startswith( 'sin_' )) or ( isinstance( x, ast.Attribute ) and x.attr.startswith( 'sin_' )) for x in ast.walk( e ))
+    def judge( node, cname, what ):
+        o = order_of( cname )
+        if o is None:
+            if cname in g.classes and 'TYPE' not in g.mro( cname ):
+                return				# a composite codec ( IPADDR_network is a TYPE; dfa-based ones carry no format )
+            raise AnalysisError( 'L-SOCKADDR: byte order of %s unknown' % cname )
+        if o in '>!':
+            res.ok( src, node, '%s: %s, network order' % ( what, cname ))
+        else:
+            res.bad( src, node, '%s uses %s ( byte order %r )' % ( what, cname, o ), 'the sockaddr_in fields are big-endian on the wire: decoded or encoded little-endian the address comes out reversed ( 127.0.0.1 -> 1.0.0.127 ), the port byte-swapped' )
+    for fn in [ f for f in ast.walk( src.tree ) if isinstance( f, ast.FunctionDef ) ]:
+        for c in walk_no_nested( fn ):
+            if not isinstance( c, ast.Call ):
+                continue
+            cn = call_name( c ) or ''
+            ctxv = [ try_fold( k.value ) for k in c.keywords if k.arg == 'context' ]
+            if ctxv and isinstance( ctxv[0], str ) and ctxv[0].startswith( 'sin_' ) and ctxv[0] != 'sin_zero' and cn.split( '.' )[-1] in g.classes:
+                judge( c, cn.split( '.' )[-1], 'parser state for %s' % ctxv[0] )
+            elif cn.endswith( '.produce' ) and c.args and about_sockaddr( c.args[0] ) and cn.split( '.' )[-2] in g.classes:
+                judge( c, cn.split( '.' )[-2], 'producer of %s' % norm_text( c.args[0] )[:30] )
+            elif cn in ( 'struct.pack', 'struct.unpack', 'struct.unpack_from', 'struct.pack_into' ) and any( about_sockaddr( a ) for a in c.args[1:] ):
+                f0 = c.args[0]
+                fmt = try_fold( f0, default=None )
+                if fmt is None and isinstance( f0, ast.Attribute ) and f0.attr == 'struct_format' and ( dotted( f0.value ) or '' ).split( '.' )[-1] in g.classes:
+                    fmt = g.class_const(( dotted( f0.value ) or '' ).split( '.' )[-1], 'struct_format' )
+                if not isinstance( fmt, str ):
+                    raise AnalysisError( 'L-SOCKADDR: format of %s unknown' % norm_text( c )[:60] )
+                if fmt[:1] in '>!':
+                    res.ok( src, c, '%s of a sockaddr field with format %r' % ( cn, fmt ))
+                else:
+                    res.bad( src, c, '%s of a sockaddr field with format %r' % ( cn, fmt ), 'the sockaddr_in fields are big-endian on the wire: decoded or encoded little-endian the address comes out reversed ( 127.0.0.1 -> 1.0.0.127 )' )
+            elif isinstance( c.func, ast.Attribute ) and c.func.attr == 'run' and any( k.arg == 'source' and about_sockaddr( k.value ) for k in c.keywords ):
+                # machine.run( source=<sin_addr octets> ... ): the machine comes from `with <CLASS>() as machine`
+                ws = [ w for w in src.ancestors( c ) if isinstance( w, ast.With ) and any( isinstance( i.optional_vars, ast.Name ) and i.optional_vars.id == dotted( c.func.value ) and isinstance( i.context_expr, ast.Call ) for i in w.items ) ]
+                if not ws:
+                    raise AnalysisError( 'L-SOCKADDR: the machine run over sockaddr octets is not created by an enclosing with' )
+                cname = ( call_name( [ i for i in ws[0].items if isinstance( i.optional_vars, ast.Name ) and i.optional_vars.id == dotted( c.func.value ) ][0].context_expr ) or '' ).split( '.' )[-1]
+                judge( c, cname, 'parser run over the sockaddr octets' )
+    return res
+
+
+# Identity object ( class 0x01 ) instance attributes, CIP Vol 1, 5A-2.2: all unsigned.  ( Revision is a STRUCT of two USINT - cpppo keeps it as
+# one 16-bit word, which has the same octets. )
+IDENTITY_ATTRS = { 1: ( 'H', 'Vendor ID' ), 2: ( 'H', 'Device Type' ), 3: ( 'H', 'Product Code' ), 4: ( 'H', 'Revision' ), 5: ( 'H', 'Status' ), 6: ( 'I', 'Serial Number' ) }
+
+
+@rule( 'L-IDENT', props=( 'C14', ), floor=6 )
+def l_ident( ctx ):
+    """the Identity object's instance attributes 1-6 are declared with the unsigned types of the specification ( a configured Vendor / Device
+    Type / Product Code above 0x7FFF is legal; declared INT it cannot be packed: List Identity is answered with encapsulation status 8, Get
+    Attribute Single fails ), and the List Identity reply takes each value from the attribute under the type it was parsed with"""
+    res = Result( 'L-IDENT' )
+    g = grammar_of( ctx )
+    src = ctx.src( 'server/enip/device.py' )
+    fn = src.get( 'Identity.__init__' )
+    decl = {}
+    for a in ast.walk( fn ):
+        if isinstance( a, ast.Assign ) and isinstance( a.targets[0], ast.Subscript ) and dotted( a.targets[0].value ) == 'self.attribute' and is_call_to( a.value, 'Attribute' ) and len( a.value.args ) >= 2:
+            k = try_fold( a.targets[0].slice )
+            if isinstance( k, str ) and k.isdigit():
+                decl[int( k )] = ( a, dotted( a.value.args[1] ))
+    for num, ( code, what ) in sorted( IDENTITY_ATTRS.items() ):
+        if num not in decl:
+            res.bad( src, fn, 'Identity attribute %d ( %s ) is not declared' % ( num, what ), 'an independent client reads it' ); continue
+        a, tname = decl[num]
+        fmt = g.class_const( tname.split( '.' )[-1], 'struct_format' ) if tname and tname.split( '.' )[-1] in g.classes else None
+        if isinstance( fmt, str ) and fmt.lstrip( '<>=!@' ) == code:
+            res.ok( src, a, 'Identity attribute %d ( %s ): %s, format %r' % ( num, what, tname, fmt ))
+        else:
+            res.bad( src, a, 'Identity attribute %d ( %s ) is declared %s ( format %r )' % ( num, what, tname, fmt ),
+                     'the specification makes it unsigned ( %r ): a configured value above the signed range cannot be packed - List Identity is answered with encapsulation status 8 and no item' % code )
+    # the List Identity reply reads attribute <n> through the key of the type it is declared with
+    usrc = ctx.src( 'server/enip/ucmm.py' )
+    ufn = usrc.get( 'UCMM.list_identity' )
+    n = 0
+    for t in ast.walk( ufn ):
+        if isinstance( t, ast.Tuple ) and len( t.elts ) == 4 and isinstance( t.elts[2], ast.Tuple ) and len( t.elts[2].elts ) == 3 and isinstance( t.elts[3], ast.Lambda ) \
+           and ( dotted( t.elts[2].elts[0] ) or '' ).endswith( 'Identity.class_id' ):
+            num = try_fold( t.elts[2].elts[2] )
+            body = t.elts[3].body
+            key = body.attr if isinstance( body, ast.Attribute ) and isinstance( body.value, ast.Name ) else None
+            if num in decl and key is not None:
+                n += 1
+                want = ( decl[num][1] or '' ).split( '.' )[-1]
+                if key == want:
+                    res.ok( usrc, t, 'List Identity reads attribute %d through .%s' % ( num, key ))
+                else:
+                    res.bad( usrc, t, 'List Identity reads attribute %d ( declared %s ) through .%s' % ( num, want, key ), 'the attribute parses itself into the key of its own type: the value is not found and the reply fails' )
+    if n < 4:
+        raise AnalysisError( 'UCMM.list_identity: the table of ( name, default, ( Identity.class_id, 1, <attribute> ), getter ) rows not found' )
+    return res
+
+
 def _l_spec( ctx, res, interop_only ):
     g = grammar_of( ctx )
     layouts = { ( e['cls'], e['number'] ): e for e in service_layouts( ctx ) }
